@@ -236,6 +236,15 @@ func runAll(c *run.Ctx) {
 			}
 		}
 	}
+	cidx := 0
+	for _, cn := range []int{255, 256, 257, 1023, 1024, 1025, 2049} {
+		for _, kind := range []int{3, 4, 5} {
+			cidx++
+			cn, kind := cn, kind
+			ct := model.CTypes[cidx%4]
+			c.Case("counts", cidx, func(k *run.K) { checkTree(k, model.SizedTree(kind, cn, ct)) })
+		}
+	}
 	for i := 0; i < c.N(30000, 300000); i++ {
 		c.Case("tree", i, func(k *run.K) {
 			typ := model.Types[k.Rng.Intn(7)]
